@@ -809,7 +809,7 @@ class BuiltinMixin:
         jf = z3.Function(f"joinstr_{tag}", arr.sort(), z3.IntSort(), z3.IntSort(), sdt)
         t = jf(arr, lo, ln)
         res = self.from_term(t, STR, st)
-        marker = z3.Bool("joinfacts!" + str(z3.simplify(t).get_id()))
+        marker = z3.Bool("joinfacts!" + str(self._tid(z3.simplify(t))))  # _tid keeps the term alive: its id is not recycled
         if any(f.eq(marker) for f in st.pc):
             return res
         st.pc.append(marker)
